@@ -344,7 +344,8 @@ SUB_TEMPLATES = [
 ]
 # ('euro rate' contains an alias word, 'tax-rate' a character that is an operator: both are only used here, where no number literal
 # stands directly in front of a name)
-SUB_NAMES = ['zq', 'wv', 'mk', 'qux', 'zq total', 'wv rate', 'günlük ücret', 'rent xx', 'sometimes', 'checksum', 'euro rate', 'tax-rate']
+SUB_NAMES = ['zq', 'wv', 'mk', 'qux', 'zq total', 'wv rate', 'günlük ücret', 'rent xx', 'sometimes', 'checksum', 'euro rate', 'tax-rate',
+             'monthly_rent', 'east', 'west', 'may']          # an underscore in a name; names that are a zone or month word and nothing else
 
 
 def substitution_case(rng):
